@@ -69,8 +69,9 @@ TRecover == /\ IsEvent("recover") /\ Alive /\ last # "env"
             /\ UNCHANGED vars
 \* plain e2fsck -fy (default group size): get_backup_sb probes the sparse_super list of groups in order
 TPlain == /\ IsEvent("plain") /\ Alive /\ last # "env"
-          /\ LET C == {g \in ListedGroups(Cur.gdc) : sbk[g] # <<>>} IN
-             (C # {} /\ Restores(SetMin(C))) => Success
+          /\ IF DevBackupSearchIgnoresSs2
+             THEN LET C == {g \in ListedGroups(Cur.gdc) : sbk[g] # <<>>} IN (C # {} /\ Restores(SetMin(C))) => Success
+             ELSE (\E g \in SbLocs(Cur) : Restores(g)) => Success          \* the property: a usable prescribed backup exists => plain e2fsck restores
           /\ UNCHANGED vars
 TraceInit == Blank /\ l = 1
 TraceNext == TMkfs \/ TResize \/ TResize64 \/ TTuneFeat \/ TTuneUUID \/ TTuneISize \/ TEnv \/ TEnvData \/ TEnvBackup \/ TFsck \/ TRecover \/ TPlain
